@@ -304,3 +304,59 @@ pub fn simpler(s: &Step) -> Vec<Step> {
     }
     v
 }
+
+/// random symbolic replication request
+pub fn rand_req(r: &mut Rng) -> Req {
+    let mut q = Req::default();
+    match r.below(10) {
+        0..=5 => q.block = Some(r.next() >> 8),
+        6 | 7 => q.hash = Some(r.next() >> 8),
+        _ => {}
+    }
+    q.upgrade = match r.below(3) {
+        0 => None,
+        _ => Some(r.next() >> 8),
+    };
+    if q.block.is_none() && q.hash.is_none() && q.upgrade.is_none() {
+        q.upgrade = Some(r.next() >> 8);
+    }
+    if r.below(5) == 0 {
+        q.seek = Some(r.next() >> 8);
+    }
+    q
+}
+
+/// replica-subject history: writer appends/clears on node 0, honest syncs and reopens on node 1
+pub fn replica_history(r: &mut Rng, g: &mut G, n: usize, replicas: u8) -> Vec<Step> {
+    let mut steps = vec![];
+    // make sure there is something to replicate
+    let k = r.range(1, 6);
+    let blks: Vec<Blk> = (0..k).map(|_| g.blk(r)).collect();
+    g.len += k;
+    steps.push(Step::Batch { n: 0, blks });
+    for _ in 0..n {
+        let to = 1 + r.below(replicas.max(1) as u64) as u8;
+        match r.below(20) {
+            0 | 1 => {
+                let blk = g.blk(r);
+                g.len += 1;
+                steps.push(Step::Append { n: 0, blk });
+            }
+            2 => {
+                let k = r.range(2, 5);
+                let blks: Vec<Blk> = (0..k).map(|_| g.blk(r)).collect();
+                g.len += k;
+                steps.push(Step::Batch { n: 0, blks });
+            }
+            3 => {
+                let (s, e) = g.clear_range(r);
+                steps.push(Step::Clear { n: 0, start: s, end: e.min(g.len + 2) });
+            }
+            4 | 5 => steps.push(Step::Reopen { n: to }),
+            6 => steps.push(Step::Get { n: to, index: g.index(r) }),
+            7 => steps.push(Step::Info { n: to }),
+            _ => steps.push(Step::Sync { to, req: rand_req(r) }),
+        }
+    }
+    steps
+}
